@@ -1213,6 +1213,12 @@ def zooModel : List (String × String) :=
    ("bool_key_alias", "undefined,undefined,undefined"),
    ("slice_unshift", "!throw:TypeError"),
    ("slice_splice_insert", "!throw:TypeError"),
-   ("slice_mutators", "ok,ok,ok,ok,ok,ok,ok,ok|go:[1 2 3]")]
+   ("slice_mutators", "ok,ok,ok,ok,ok,ok,ok,ok|go:[1 2 3]"),
+   ("map_forin_delete_during", "6|go:0"),
+   ("map_enumeration_order", "unstable|go:6"),
+   ("slice_forin_shrink_during", "0,1,2|go:[1 2 3]"),
+   ("struct_promoted_enumeration", "true,x,true|Y,ZIn|Y,ZIn"),
+   ("nested_container_identity", "false,false,true"),
+   ("setlength_thrown_value", "object:TypeError: 42|go:[1 2 3]")]
 
 end OttoVerif.C16
